@@ -114,7 +114,8 @@ class RecheckProp(Prop):
     def nontrivial(self, case):
         t = case["tree"]
         return (case["version"], case["meta_src"], case["P"], tuple(f["size"] for f in t["files"]),
-                tuple((d["file"], d["kind"], d["arg"]) for d in case["damage"]), case["path_mode"], case["route"])
+                tuple((d["file"], d["kind"], d["arg"]) for d in case["damage"]), case["path_mode"], case["route"],
+                bool(case.get("parent_named")))
 
     def signature(self, case, rec, clause):
         return "%s/v%s" % (clause, case["version"] if case else "?")
@@ -234,6 +235,7 @@ class C05(RecheckProp):
         for v, src, P, tree in trees:
             g += 1
             base = self.mk(rng, P, v, src, 0, ["C05.hundred", "C05.rootparent"], tree=tree, group="g%d" % g)
+            base["parent_named"] = g % 6 == 0        # the parent directory is named like the payload
             for mode in ("root", "parent"):
                 c = dict(base)
                 c["path_mode"] = mode
